@@ -917,6 +917,7 @@ func TestVerifC19Cache(t *testing.T) {
 	vC19OverlongReplay(tr)
 	vC19CorpusReplay(t, tr)
 	vC19DenialSweep(tr)
+	vC19FailureSweep(tr)
 	for c := 0; c < n; c++ {
 		if c%4 == 3 {
 			vC19DenialCase(tr, r)
@@ -1196,7 +1197,7 @@ func vC19ExecHistory(tr *vC19Trace, b vC19BuildArgs, ecsMax time.Duration, prefe
 	known := map[int]vC19Answer{}
 	byEntry := map[*CacheEntry]int{} // which answer an entry holds
 	goFail := ""
-	scopedHits, sharedHits, refreshes, scopedStores := 0, 0, 0, 0
+	scopedHits, sharedHits, refreshes, scopedStores, bytesHits := 0, 0, 0, 0, 0
 	fail := func(s string) {
 		if goFail == "" {
 			goFail = s
@@ -1441,7 +1442,12 @@ func vC19ExecHistory(tr *vC19Trace, b vC19BuildArgs, ecsMax time.Duration, prefe
 			d["result"] = []string{"", "scoped hit", "shared hit"}[src]
 			d["entry_scope"] = hitEntry.scope.String()
 		}
-		ops = append(ops, fmt.Sprintf("(mk_cop %s %s %s %s, %s)", qcoq, up.coq(), vC19Bool(aged), rf.coq(), obs))
+		fromBytes := wireReq != nil && wireReq.Undecoded() // answered without ever decoding the request
+		d["wire_born"], d["from_bytes"] = wireReq != nil, fromBytes
+		if fromBytes {
+			bytesHits++
+		}
+		ops = append(ops, fmt.Sprintf("(mk_cop %s %s %s %s, %s, (%s, %s))", qcoq, up.coq(), vC19Bool(aged), rf.coq(), obs, vC19Bool(wireReq != nil), vC19Bool(fromBytes)))
 		desc = append(desc, d)
 	}
 	if shortLived && time.Since(started) > 700*time.Millisecond {
@@ -1459,8 +1465,11 @@ func vC19ExecHistory(tr *vC19Trace, b vC19BuildArgs, ecsMax time.Duration, prefe
 	if refreshes > 0 {
 		k += "+refresh"
 	}
+	if bytesHits > 0 {
+		k += "+bytes"
+	}
 	tr.emit(map[string]any{"k": k,
-		"coq":     fmt.Sprintf("CaseCache (mk_ccfg %s %d%%Z %s) [%s]", b.coq(), int64(ecsMax), vC19Bool(prefetch), strings.Join(ops, "; ")),
+		"coq":     fmt.Sprintf("CaseCacheW (mk_ccfg %s %d%%Z %s) [%s]", b.coq(), int64(ecsMax), vC19Bool(prefetch), strings.Join(ops, "; ")),
 		"go_fail": goFail, "nontrivial": scopedStores > 0 || sharedHits > 0,
 		"desc": map[string]any{"ecs_cfg": fmt.Sprintf("%+v", b), "cache_limit_ttl": ecsMax.String(), "prefetch": prefetch, "ops": desc}})
 }
@@ -1601,6 +1610,134 @@ func vC19DenialSweep(tr *vC19Trace) {
 			}
 		}
 	}
+}
+
+// RFC 9520 failure state (every run): a resolution failure of the asked name is cached under the SHARED
+// failure key (as a client without request scope leaves it), for CD=0 and CD=1; then the same product
+// of policies x births x client options asks that name.  Observed: answered SERVFAIL without reaching the
+// upstream = the shared failure entry was consumed.
+func vC19FailureSweep(tr *vC19Trace) {
+	remote := vC19V4(203, 0, 113, 77)
+	v4 := &dns.EDNS0_SUBNET{Code: dns.EDNS0SUBNET, Family: 1, SourceNetmask: 24, Address: vC19V4(203, 0, 113, 0)}
+	v4zero := &dns.EDNS0_SUBNET{Code: dns.EDNS0SUBNET, Family: 1, SourceNetmask: 0, Address: vC19V4(0, 0, 0, 0)}
+	v6 := &dns.EDNS0_SUBNET{Code: dns.EDNS0SUBNET, Family: 2, SourceNetmask: 56, Address: net.ParseIP("2001:db8:1::")}
+	mism := &dns.EDNS0_SUBNET{Code: dns.EDNS0SUBNET, Family: 2, SourceNetmask: 24, Address: vC19V4(203, 0, 113, 0)} // not forwardable
+	out := &dns.EDNS0_SUBNET{Code: dns.EDNS0SUBNET, Family: 0, SourceNetmask: 0}
+	policies := []vC19BuildArgs{
+		{enabled: false},
+		{enabled: true, f4: 77},
+		{enabled: true},
+		{enabled: true, nets: []string{"198.51.100.0/24"}},
+		{enabled: true, nets: []string{"203.0.113.0/24"}},
+	}
+	type sent struct {
+		opts   []dns.EDNS0
+		hasOPT bool
+		cd     bool
+	}
+	sents := []sent{
+		{nil, false, false}, {nil, true, false},
+		{[]dns.EDNS0{v4}, true, false}, {[]dns.EDNS0{v6}, true, false}, {[]dns.EDNS0{out}, true, false},
+		{[]dns.EDNS0{v4zero}, true, false}, {[]dns.EDNS0{mism}, true, false},
+		{nil, true, true}, {[]dns.EDNS0{v4}, true, true},
+	}
+	const name = "n0.failz.example."
+	for _, b := range policies {
+		for _, wantWire := range []bool{false, true} {
+			for _, sn := range sents {
+				c, e, _ := vC19NewCache(b, 0, false)
+				for _, scd := range []bool{false, true} {
+					seed := new(dns.Msg)
+					seed.SetQuestion(name, dns.TypeA)
+					seed.CheckingDisabled = scd
+					c.store.RecordFailure(seed, netip.Prefix{}, FailureProvenance("verif"), nil)
+				}
+				if c.store.FailureLen() == 0 {
+					tr.emit(map[string]any{"k": "failure-seed-failed", "go_fail": "cannot seed the failure cache", "desc": "seed"})
+					c.Stop()
+					return
+				}
+				reached := false
+				upstream := middleware.HandlerFunc(func(ctx context.Context, ch *middleware.Chain) {
+					reached = true
+					req := ch.Request.Msg()
+					resp := new(dns.Msg)
+					resp.SetReply(req)
+					resp.RecursionAvailable = true
+					resp.Answer = []dns.RR{&dns.A{Hdr: dns.RR_Header{Name: name, Rrtype: dns.TypeA, Class: dns.ClassINET, Ttl: 300}, A: net.IPv4(192, 0, 2, 9).To4()}}
+					_ = ch.Writer.WriteMsg(resp)
+					ch.Cancel()
+				})
+				req := new(dns.Msg)
+				req.SetQuestion(name, dns.TypeA)
+				req.RecursionDesired = true
+				req.CheckingDisabled = sn.cd
+				opts, hasOPT := sn.opts, sn.hasOPT
+				if hasOPT {
+					o := &dns.OPT{Hdr: dns.RR_Header{Name: ".", Rrtype: dns.TypeOPT}}
+					o.SetUDPSize(1232)
+					o.Option = append(o.Option, opts...)
+					req.Extra = append(req.Extra, o)
+				}
+				var wireReq *middleware.Request
+				if wantWire {
+					if wr, o, h, ok := vC19Wire(req); ok {
+						wireReq, opts, hasOPT = wr, o, h
+					}
+				}
+				w := &vC19Writer{proto: "udp", remote: remote, port: 42000}
+				ch := middleware.NewChain([]middleware.Handler{e, c, upstream})
+				if wireReq != nil {
+					ch.ResetWire(w, wireReq)
+					ch.AllowDirectPack()
+				} else {
+					ch.Reset(w, req)
+				}
+				ch.Next(context.Background())
+				neverDecoded := wireReq != nil && wireReq.Undecoded()
+				c.Stop()
+				if w.msg == nil {
+					tr.emit(map[string]any{"k": "failure-inconclusive", "inconclusive": true, "desc": "no reply"})
+					continue
+				}
+				consumed := !reached && w.msg.Rcode == dns.RcodeServerFailure
+				goFail := ""
+				if !reached && !consumed {
+					goFail = fmt.Sprintf("upstream not reached, yet the reply is %s", dns.RcodeToString[w.msg.Rcode])
+				}
+				if _, leaked := vC19ReplyHasECS(w.msg); leaked {
+					goFail = "the failure reply carries a subnet option"
+				}
+				k := "failure-sweep"
+				if consumed {
+					k += "-served"
+				}
+				if wireReq != nil {
+					k += "-wire"
+				}
+				if c.ecsPolicy == nil {
+					k += "-nopolicy"
+				}
+				tr.emit(map[string]any{"k": k, "coq": fmt.Sprintf("CaseFailure %s %s %s %s %s", b.coq(), vC19Bytes(remote), vC19OptOpts(opts, hasOPT), vC19Bool(wireReq != nil), vC19Bool(consumed)),
+					"go_fail": goFail, "nontrivial": true,
+					"desc": map[string]any{"ecs_cfg": fmt.Sprintf("%+v", b), "client": remote.String(), "cd": sn.cd, "opts": fmt.Sprint(opts), "wire_born": wireReq != nil, "never_decoded": neverDecoded, "reached_upstream": reached, "rcode": dns.RcodeToString[w.msg.Rcode]}})
+			}
+		}
+	}
+}
+
+func vC19ReplyHasECS(m *dns.Msg) (int, bool) {
+	n := 0
+	for _, rr := range m.Extra {
+		if o, ok := rr.(*dns.OPT); ok {
+			for _, x := range o.Option {
+				if _, ok := x.(*dns.EDNS0_SUBNET); ok {
+					n++
+				}
+			}
+		}
+	}
+	return n, n > 0
 }
 
 // runs one request tree: nodes[0] is the root's question, nodes[i+1] the alias target of nodes[i]
